@@ -28,7 +28,7 @@ try:
             out[p] = {"error": err[:300]}
         else:
             out[p] = sorted(set("%s: %s" % (i.rule, i.subject) for i in v))
-        print(p, json.dumps(out[p])[:600])
+        print(p, json.dumps(out[p]))
     selftest.cleanup_scratch_facts(repo)
 finally:
     selftest.drop_scratch(slot)
